@@ -251,9 +251,11 @@ def execute(prog):
                     if kind != "ok" or type(val).__name__ != "SCSIDevice":
                         viol("C19.not-accepted", w, "sgio", "SCSIDevice on %r" % s, repr(val)[:100])
                     else:
-                        mode = "w+b" if op.get("rw") else "rb"
-                        if len(opens) != 1 or opens[0].get("path") != s or opens[0].get("mode") != mode:
-                            viol("C19.open", w, "sgio", "one open(%r, %r)" % (s, mode), "%s" % [(e.get("path"), e.get("mode")) for e in opens])
+                        m = str(opens[0].get("mode")) if opens else ""
+                        mode_ok = ("+" in m) if op.get("rw") else not any(c in m for c in "+wax")
+                        if len(opens) != 1 or opens[0].get("path") != s or not mode_ok:
+                            viol("C19.open", w, "sgio", "one open of %r, %s" % (s, "read-write" if op.get("rw") else "read-only"),
+                                 "%s" % [(e.get("path"), e.get("mode")) for e in opens])
                         else:
                             WORLD.probe("accepted_sgio")
                 elif kind == "ok":
@@ -282,9 +284,8 @@ def execute(prog):
                         if ini != op["initiator"]:
                             viol("C19.initiator", w, "explicit", "initiator name %r" % op["initiator"], repr(ini))
                     elif "initiator" not in op and via == "init_device":
-                        want = "iqn.2018-01.org.pyscsi:%s" % cfg["hostname"]
-                        if ini != want:
-                            viol("C19.initiator", w, "default", "default initiator name %r" % want, repr(ini))
+                        if not isinstance(ini, str) or cfg["hostname"] not in ini or not ini.startswith("iqn."):
+                            viol("C19.initiator", w, "default", "a default iqn initiator name built from the host name %r" % cfg["hostname"], repr(ini))
                         else:
                             WORLD.probe("default_initiator")
             elif kind == "ok":
